@@ -129,6 +129,41 @@ def tol_log(*mags):
     return 8 * EPS * m
 
 
+FLOOR = 1e-322  # results in the denormal range cannot carry relative precision
+
+
+def tol_rel(ex):
+    """Relative tolerance for a function computed without cancellation."""
+    e = abs(to_float(ex))
+    return FLOOR if e in (INF,) or e != e else 16 * EPS * e + FLOOR
+
+
+def tol_lse(a, b, ex):
+    """log(e^a + e^b) = hi + c, c = log1p(e^(lo-hi)) in (0, ln 2]: rounding of the sum is relative
+    to max(|result|, |c|) (hi and c may cancel); rounding of d = lo - hi perturbs c by |d| eps c."""
+    if abs(a) == INF or abs(b) == INF or a != a or b != b:
+        return tol_log(a, b, to_float(ex))
+    hi, lo = (a, b) if a >= b else (b, a)
+    c = abs(to_float(ex - D(hi)))
+    d = abs(lo - hi)
+    return 16 * EPS * max(abs(to_float(ex)), c) + (d * EPS * c if d != INF else 0.0) + FLOOR
+
+
+def tol_lde(a, b, ex):
+    """log(e^a - e^b) = a + c, c = log(1 - e^d), d = b - a < 0; dc/dd = -e^d / (1 - e^d)."""
+    if abs(a) == INF or abs(b) == INF or a != a or b != b or not a > b:
+        return tol_log(a, b, to_float(ex))
+    c = abs(to_float(ex - D(a)))
+    d = b - a
+    try:
+        sens = 1.0 / math.expm1(-d)  # e^d / (1 - e^d)
+    except OverflowError:
+        sens = 0.0
+    # d itself carries a rounding error of eps/2 max(|a|, |b|) when a and b are close
+    dd = EPS * max(abs(a), abs(b), abs(d))
+    return 16 * EPS * max(abs(to_float(ex)), c) + dd * sens + FLOOR
+
+
 def judge(got, exact_dec, tol_mag, acc, cfg, op, args, domain):
     """Compare library result with exact Decimal; tolerance is absolute tol_mag."""
     acc.count("evaluations")
@@ -181,7 +216,7 @@ def check_config(cfg, acc):
                                   args=[v])
                 else:
                     ex = d_log1p_exp(dv)
-                    judge(got, ex, tol_log(v, to_float(ex)), acc, cfg, "log1p_exp", [v], "log")
+                    judge(got, ex, tol_rel(ex), acc, cfg, "log1p_exp", [v], "log")
                 # log1m_exp (defined for v < 0; v >= 0 documented to give nan)
                 st, got = call(U.log1m_exp, v)
                 if v < 0:
@@ -193,8 +228,7 @@ def check_config(cfg, acc):
                                       args=[v])
                     else:
                         ex = d_log1m_exp(dv)
-                        judge(got, ex, 8 * EPS * max(1.0, abs(to_float(ex))), acc, cfg,
-                              "log1m_exp", [v], "log")
+                        judge(got, ex, tol_rel(ex), acc, cfg, "log1m_exp", [v], "log")
         elif kind == "binary":
             a = lat[cfg["i"]]
             for b in lat:
@@ -207,8 +241,7 @@ def check_config(cfg, acc):
                                   args=[a, b])
                 else:
                     ex = d_lse(da, db)
-                    judge(got, ex, tol_log(a, b, to_float(ex)), acc, cfg, "log_sum_exp",
-                          [a, b], "log")
+                    judge(got, ex, tol_lse(a, b, ex), acc, cfg, "log_sum_exp", [a, b], "log")
                 if a >= b:
                     st, got = call(U.log_diff_exp, a, b)
                     if st == "exc":
@@ -219,8 +252,8 @@ def check_config(cfg, acc):
                                       args=[a, b])
                     else:
                         ex = Decimal("-Infinity") if a == b else d_lde(da, db)
-                        judge(got, ex, tol_log(a, b, to_float(ex)), acc, cfg, "log_diff_exp",
-                              [a, b], "log")
+                        judge(got, ex, tol_lde(a, b, ex), acc, cfg, "log_diff_exp", [a, b],
+                              "log")
                 _check_logrep_pair(U, a, b, cfg, acc)
         elif kind == "mixed":
             a = lat[cfg["i"]]
@@ -250,8 +283,7 @@ def _check_logrep_pair(U, a, b, cfg, acc):
         rec_exc("LogRep+LogRep", r)
     else:
         ex = d_lse(da, db)
-        judge(r.log_val, ex, tol_log(a, b, to_float(ex)), acc, cfg, "LogRep+LogRep", [a, b],
-              "log")
+        judge(r.log_val, ex, tol_lse(a, b, ex), acc, cfg, "LogRep+LogRep", [a, b], "log")
     # in-place add of the same pair (a fresh accumulator; the operand must stay untouched)
     z, w = L(log_val=a), L(log_val=b)
     st, r = call(z.__iadd__, w)
@@ -263,8 +295,7 @@ def _check_logrep_pair(U, a, b, cfg, acc):
                       kind="type", observed=type(r).__name__, expected="LogRepFloat", args=[a, b])
     else:
         ex = d_lse(da, db)
-        judge(r.log_val, ex, tol_log(a, b, to_float(ex)), acc, cfg, "LogRep+=LogRep", [a, b],
-              "log")
+        judge(r.log_val, ex, tol_lse(a, b, ex), acc, cfg, "LogRep+=LogRep", [a, b], "log")
         if w.log_val != b and not (w.log_val != w.log_val and b != b):
             acc.violation(driver="lattice", config=cfg,
                           fields={"op": "LogRep+=LogRep", "problem": "operand_modified"},
@@ -297,7 +328,7 @@ def _check_logrep_pair(U, a, b, cfg, acc):
                           observed=r, expected=to_float(ex), args=[a, b])
             return
         lv = r.log_val if isinstance(r, L) else (math.log(r) if r > 0 else -INF)
-        judge(lv, ex, tol_log(a, b, to_float(ex)), acc, cfg, "LogRep-LogRep", [a, b], "log")
+        judge(lv, ex, tol_lde(a, b, ex), acc, cfg, "LogRep-LogRep", [a, b], "log")
     else:
         ex = d_exp(da) - d_exp(db)
         mag = max(abs(to_float(d_exp(da))), abs(to_float(d_exp(db))))
@@ -426,6 +457,7 @@ def _check_accumulate(U, cfg, acc):
                 x = L(log_val=start)
                 ex = D(start)
                 ok = True
+                tol_sum = 0.0
                 for idx, pl in zip(seq, as_plain):
                     lv = ACC_ALPHA[idx]
                     if pl:
@@ -438,10 +470,13 @@ def _check_accumulate(U, cfg, acc):
                             ok = False  # not representable as a plain number
                             break
                         st, r = call(x.__iadd__, val)
-                        ex = d_lse(ex, d_ln(D(val)))
+                        prev, ex = ex, d_lse(ex, d_ln(D(val)))
+                        tol_sum += tol_lse(to_float(prev), math.log(val) if val > 0 else -INF, ex) \
+                            + 4 * EPS  # log(val) of the plain operand is rounded
                     else:
                         st, r = call(x.__iadd__, L(log_val=lv))
-                        ex = d_lse(ex, D(lv))
+                        prev, ex = ex, d_lse(ex, D(lv))
+                        tol_sum += tol_lse(to_float(prev), lv, ex)
                     if st == "exc":
                         acc.violation(driver="lattice", config=cfg,
                                       fields={"op": "iadd", "problem": type(r).__name__},
@@ -452,19 +487,60 @@ def _check_accumulate(U, cfg, acc):
                     x = r
                 if not ok:
                     continue
-                judge(x.log_val, ex, (n + 1) * tol_log(start, to_float(ex),
-                                                       *[ACC_ALPHA[i] for i in seq]),
+                # errors of earlier steps propagate with a factor e^a / (e^a + e^b) <= 1
+                judge(x.log_val, ex, tol_sum,
                       acc, cfg, "iadd_seq", [start, [ACC_ALPHA[i] for i in seq], as_plain],
                       "log")
                 acc.count("sequences")
+    # long accumulations: runs of n equal weights added one at a time (trajectory weights are
+    # accumulated over thousands of states); exact value ln(e^start + n e^lv)
+    for lv in ACC_ALPHA:
+        for n in cfg.get("runs", (1000,)):
+            if lv == -INF and n > 1000:
+                continue
+            x = L(log_val=start)
+            w = L(log_val=lv)
+            st = "ok"
+            for _ in range(n):
+                st, r = call(x.__iadd__, w)
+                if st == "exc":
+                    break
+                x = r
+            if st == "exc":
+                acc.violation(driver="lattice", config=cfg,
+                              fields={"op": "iadd_run", "problem": type(r).__name__},
+                              kind="exception", observed=repr(r), expected="value",
+                              args=[start, lv, n])
+                continue
+            ex = d_lse(D(start), D(lv) + d_ln(D(n))) if lv != -INF else D(start)
+            # per step: rounding relative to max(|running log value|, correction) <= the largest
+            # of |start|, |final|, ln 2; n steps, propagated with factors <= 1
+            mag = max(abs(start) if start != -INF else 0.0, abs(to_float(ex)),
+                      abs(lv) if start == -INF and lv != -INF else 0.0)
+            corr = abs(to_float(ex - D(start))) if start != -INF else math.log(2.0)
+            tol = n * 2 * EPS * max(mag, min(corr, math.log(2.0))) + \
+                (n * EPS * abs(lv - start) * corr if -INF < start and -INF < lv else 0.0) + n * FLOOR
+            if w.log_val != lv:
+                acc.violation(driver="lattice", config=cfg,
+                              fields={"op": "iadd_run", "problem": "operand_modified"},
+                              kind="operand_modified", observed=w.log_val, expected=lv,
+                              args=[start, lv, n])
+                continue
+            judge(x.log_val, ex, tol, acc, cfg, "iadd_run", [start, lv, n], "log")
+            acc.count("sequences")
 
 
 def configs(tier, seed):
-    n = len(log_lattice(seed))
-    cfgs = [{"kind": "unary", "seed": seed}]
-    cfgs += [{"kind": "binary", "i": i, "seed": seed} for i in range(n)]
-    cfgs += [{"kind": "mixed", "i": i, "seed": seed} for i in range(n)]
-    cfgs += [{"kind": "accumulate", "i": i, "seed": seed} for i in range(len(ACC_ALPHA))]
+    cfgs = []
+    # each seed value selects one of 8 extra-point alphabets; thorough covers all eight
+    for sd in ((seed,) if tier == "quick" else tuple(seed + j for j in range(8))):
+        n = len(log_lattice(sd))
+        cfgs += [{"kind": "unary", "seed": sd}]
+        cfgs += [{"kind": "binary", "i": i, "seed": sd} for i in range(n)]
+        cfgs += [{"kind": "mixed", "i": i, "seed": sd} for i in range(n)]
+    cfgs += [{"kind": "accumulate", "i": i, "seed": seed,
+              "runs": [1000, 20000] if tier == "quick" else [1000, 20000, 200000]}
+             for i in range(len(ACC_ALPHA))]
     return cfgs
 
 
